@@ -17,6 +17,8 @@ pub type Subj = SubjectThreads<V, E>;
 pub type BObs = BoxObserverThreads<V, E>;
 pub type Subr = SubscriberThreads<BObs>;
 pub type BSub = BoxSubscriptionThreads;
+pub type MultiSub = MultiSubscriptionThreads;
+pub type BoxSub = BoxSubscriptionThreads;
 pub type CBx = rxrust::ops::box_it::CloneableBoxOpThreads<V, E>;
 pub type Sh<T> = Arc<Mutex<T>>;
 pub fn sh<T>(t: T) -> Sh<T> {
